@@ -31,3 +31,25 @@ pub fn point(site: &'static str, args: &[i64]) {
         }
     });
 }
+
+/// A fresh instance of the crate-private once-cell that holds the global recorder, so that
+/// installers and emitters can be raced on many cells within one process.
+#[derive(Debug)]
+pub struct OnceCell(crate::recorder::VerifRecorderOnceCell);
+
+impl OnceCell {
+    /// Creates an uninitialized cell.
+    pub const fn new() -> Self {
+        OnceCell(crate::recorder::VerifRecorderOnceCell::new())
+    }
+
+    /// `RecorderOnceCell::set`.
+    pub fn set<R: crate::Recorder + 'static>(&self, recorder: R) -> Result<(), crate::SetRecorderError<R>> {
+        self.0.set(recorder)
+    }
+
+    /// `RecorderOnceCell::try_load`.
+    pub fn try_load(&self) -> Option<&'static dyn crate::Recorder> {
+        self.0.try_load()
+    }
+}
